@@ -21,7 +21,10 @@ RULE = ('frames of 24-60 rows with 1-2 binary/ternary and 1 continuous covariate
         'categorical covariates, saturated exposure model, one-parameter SNM: psi vs the Coq-evaluated n p(1-p)-weighted '
         'average of stratum mean differences, fitted pi vs Coq-evaluated weighted cell proportions. Search solver on a '
         'subset: default start and a start near the closed form; its result is re-fitted (augmented exposure model) to '
-        'validate the hypothesis of snm_search_root. non-trivial = distinct (frame, SNM, weights, missing, solver)')
+        'validate the hypothesis of snm_search_root. Multi-step HISTORIES on one object (fit; missing_model; fit -- fit; exposure_model(other); '
+        'fit -- fit; structural_nested_model(other); fit -- missing_model(m1); fit; missing_model(m2, stabilized flipped); fit; with and '
+        'without weights): the last fit is compared with a FRESH object given the final specification (psi, lhm/rha vs the Coq model on the '
+        'fresh propensities, Coq residual at the history object\'s psi). non-trivial = distinct (frame, SNM, weights, missing, solver)')
 TRUSTED = ['np.linalg.solve returns psi with lhm psi = rha (oracle of snm_estimating_eq; the Coq-evaluated residual is the validation)',
            'statsmodels GLM Binomial with freq_weights solves its weighted score equations (validated numerically per case); '
            'with a saturated design it returns the weighted cell proportions (validated against Coq-evaluated cells)',
@@ -168,6 +171,94 @@ def run_closed(df, meta, snm_formula, mods):
         return {'error': '%s: %s' % (type(ex).__name__, str(ex)[:160])}
 
 
+def run_history(df, meta, steps):
+    """apply a multi-step history of public calls to ONE object; returns what its LAST closed-form fit produced:
+    {'psi', 'labels', 'lhm', 'rha'} (lhm/rha = the arguments of its last np.linalg.solve) or {'error'}"""
+    from zepid.causal.snm import GEstimationSNM
+    try:
+        with Spies() as sp, warnings.catch_warnings():
+            warnings.simplefilter('ignore')
+            g = GEstimationSNM(df, exposure='A', outcome='Y', weights='wt' if meta['weights'] else None)
+            nsolve = 0
+            for st in steps:
+                if st[0] == 'exposure_model':
+                    g.exposure_model(st[1], print_results=False)
+                elif st[0] == 'snm':
+                    g.structural_nested_model(st[1])
+                elif st[0] == 'missing_model':
+                    g.missing_model(st[1], stabilized=st[2], print_results=False)
+                elif st[0] == 'fit':
+                    g.fit(solver='closed')
+                    nsolve += 1
+                else:
+                    raise AssertionError(st)
+        psi = [float(x) for x in np.asarray(g.psi).ravel()]
+        lhm, rha, x = [q for q in sp.solves if q[0].shape == (len(psi), len(psi))][-1]
+        return {'psi': psi, 'labels': list(g.psi_labels), 'lhm': lhm.ravel().tolist(), 'rha': np.asarray(rha).ravel().tolist(),
+                'fits': nsolve}
+    except Exception as ex:   # noqa
+        return {'error': '%s: %s' % (type(ex).__name__, str(ex)[:160])}
+
+
+def fmt_steps(steps):
+    out = []
+    for st in steps:
+        if st[0] == 'fit':
+            out.append('fit()')
+        elif st[0] == 'missing_model':
+            out.append('missing_model(%r, stabilized=%s)' % (st[1], st[2]))
+        elif st[0] == 'snm':
+            out.append('structural_nested_model(%r)' % st[1])
+        else:
+            out.append('exposure_model(%r)' % st[1])
+    return '; '.join(out)
+
+
+HISTORY_KINDS = ['fit-missing-fit', 'fit-exposure-fit', 'fit-snm-fit', 'missing-fit-missing-fit']
+
+
+def make_history(rng, kind, want_weights):
+    """-> (df, final_meta, final_snm, final_mods, steps).  The frame has missing outcomes (so missing_model may be
+    called at any point); final_* describe the specification in force at the LAST fit, which is what a fresh object
+    is given."""
+    for _ in range(400):
+        df, meta = make_frame(rng)
+        if meta['missing'] is None or meta['weights'] != want_weights:
+            continue
+        if all(identifiable(df, m) for _, m in SNMS):
+            break
+    covs = meta['covs']
+    e0 = meta['emodel']
+    others = [' + '.join(covs[:-1]) if len(covs) > 1 else '1', covs[0], e0 + ' + L0:W0']
+    e1 = rng.choice([e for e in others if e != e0])
+    (f0, m0), (f1, m1) = rng.sample(SNMS, 2)
+    mm1, mm2 = rng.sample(['A + L0', 'A + W0', 'A + L0 + W0', 'A'], 2)
+    stab = rng.random() < 0.5
+    steps = [('exposure_model', e0), ('snm', f0)]
+    final = dict(meta, missing=None)
+    fsnm, fmods = f0, m0
+    pre_missing = kind in ('fit-exposure-fit', 'fit-snm-fit') and rng.random() < 0.5
+    if pre_missing:
+        steps.append(('missing_model', mm1, stab))
+        final.update(missing='model' if stab else 'model_unstab', mmodel=mm1)
+    if kind == 'fit-missing-fit':
+        steps += [('fit',), ('missing_model', mm1, stab), ('fit',)]
+        final.update(missing='model' if stab else 'model_unstab', mmodel=mm1)
+    elif kind == 'fit-exposure-fit':
+        steps += [('fit',), ('exposure_model', e1), ('fit',)]
+        final.update(emodel=e1)
+    elif kind == 'fit-snm-fit':
+        steps += [('fit',), ('snm', f1), ('fit',)]
+        fsnm, fmods = f1, m1
+    elif kind == 'missing-fit-missing-fit':
+        steps += [('missing_model', mm1, stab), ('fit',), ('missing_model', mm2, not stab), ('fit',)]
+        final.update(missing='model_unstab' if stab else 'model', mmodel=mm2)
+    else:
+        raise AssertionError(kind)
+    final['history'] = kind
+    return df, final, fsnm, fmods, steps
+
+
 def run_search(df, meta, snm_formula, start=None):
     try:
         g = build(df, meta, snm_formula)
@@ -248,6 +339,10 @@ def gen_cases(ctx):
     for i in range(n_sat):
         df, meta = make_frame(ctx.rng, saturated=True)
         cases.append((df, meta, 'A', []))
+    # multi-step histories on one object: the LAST fit must be what a fresh object with the final specification gives
+    for i in range(8 if ctx.quick else 80):
+        df, meta, f, mods, steps = make_history(ctx.rng, HISTORY_KINDS[i % len(HISTORY_KINDS)], want_weights=(i // len(HISTORY_KINDS)) % 2 == 1)
+        cases.append((df, meta, f, mods, steps))
     return cases
 
 
@@ -255,8 +350,11 @@ def search_plan(ctx, cases):
     """which cases also run the (slow) search solver: index -> list of ('default' | 'near')"""
     budget = {1: 6, 2: 4, 3: 2} if ctx.quick else {1: 40, 2: 30, 3: 12}
     plan = {}
-    for i, (df, meta, f, mods) in enumerate(cases):
+    for i, case in enumerate(cases):
+        df, meta, f, mods = case[:4]
         dim = len(mods) + 1
+        if len(case) > 4:
+            continue
         if budget.get(dim, 0) > 0:
             budget[dim] -= 1
             plan[i] = ['default', 'near']
@@ -265,8 +363,10 @@ def search_plan(ctx, cases):
 
 def check_cases(ctx, fails, cases, plan):
     exprs, work = [], []
-    for i, (df, meta, f, mods) in enumerate(cases):
-        cl = run_closed(df, meta, f, mods)
+    for i, case in enumerate(cases):
+        df, meta, f, mods = case[:4]
+        steps = case[4] if len(case) > 4 else None
+        cl = run_closed(df, meta, f, mods)          # a FRESH object with the (final) specification
         ctx.evaluations += 1
         dim = len(mods) + 1
         ctx.count('snm:%d-param' % dim)
@@ -274,7 +374,13 @@ def check_cases(ctx, fails, cases, plan):
         ctx.count('weights:%s' % meta['weights'])
         ctx.count('missing:%s' % meta['missing'])
         ctx.count('exposure-model:' + ('saturated' if meta['saturated'] else 'parametric'))
-        pay = payload_of(df, meta, f)
+        pay = payload_of(df, meta, f, {'steps': [list(st) for st in steps]} if steps else None)
+        hist = None
+        if steps:
+            hist = run_history(df, meta, steps)
+            hist['steps'] = steps
+            ctx.evaluations += 1
+            ctx.count('history:%s,weights=%s' % (meta['history'], meta['weights']))
         if 'error' in cl:
             fails.append((meta['n'], 'GEstimationSNM.closed.raises',
                           'GEstimationSNM(%r, weights=%s, missing=%s).fit() raised %s' % (f, meta['weights'], meta['missing'], cl['error']), pay))
@@ -302,18 +408,68 @@ def check_cases(ctx, fails, cases, plan):
         e += ', ' + ('[Qpair (snm_wavg (base_rows rows))], map (fun s => Qpair (pS s (base_rows rows))) (seq 0 %d)'
                      % (max(cl['K']) + 1) if meta['saturated'] else '(nil : list (list Z)), (nil : list (list Z))')
         e += ', (nil : list (list (list Z))) ++ [' + '; '.join('map Qpair (map (fun j => esteq_x %d %s j rows) (seq 0 %d))' % (dim, qlist(s['psi']), dim)
-                              for s in searches if all(abs(p) < 1e6 for p in s['psi'])) + '])'
+                              for s in searches if all(abs(p) < 1e6 for p in s['psi'])) + ']'
+        hist_ok = hist is not None and 'error' not in hist and len(hist['psi']) == dim and all(abs(p) < 1e9 for p in hist['psi'])
+        e += ', ' + ('map Qpair (map (fun j => esteq_x %d %s j rows) (seq 0 %d))' % (dim, qlist(hist['psi']), dim) if hist_ok
+                     else '(nil : list (list Z))') + ')'
         exprs.append(e)
-        work.append((i, cl, searches, pay))
+        work.append((i, cl, searches, pay, hist))
     res, errs = coq_eval(ctx, 'c15', IMPORTS, exprs, shard=3)
     if errs:
         ctx.broken_ties.append('coq evaluation failed: ' + errs[0][1][-400:])
-    for (i, cl, searches, pay), r in zip(work, res):
-        df, meta, f, mods = cases[i]
+    for (i, cl, searches, pay, hist), r in zip(work, res):
+        df, meta, f, mods = cases[i][:4]
         if r is None:
             ctx.broken_ties.append('no Coq value for case %d (%s)' % (i, f))
             continue
         check_one(ctx, fails, df, meta, f, mods, cl, searches, pay, r)
+        if hist is not None:
+            check_history(ctx, fails, meta, f, mods, cl, hist, pay, r)
+
+
+def check_history(ctx, fails, meta, f, mods, cl, hist, pay, r):
+    """the object that went through the history must, at its last fit, be indistinguishable from a fresh object given
+    the final specification: same psi, lhm / rha equal to the Coq-evaluated M / r on the fresh object's rows, weights
+    and fitted propensities, and the Coq-evaluated estimating-equation residual ~0 at ITS psi"""
+    n, dim = meta['n'], len(mods) + 1
+    cfg = ('GEstimationSNM(weights=%s) after %s  [final: snm=%r, exposure_model=%r, missing=%s %r]'
+           % (meta['weights'], fmt_steps(hist['steps']), f, meta['emodel'], meta['missing'], meta.get('mmodel') if meta['missing'] else None))
+    if 'error' in hist:
+        fails.append((n, 'GEstimationSNM.history.raises', cfg + ' raised ' + hist['error'], pay))
+        return
+    ctx.programs += 1
+    ctx.nontriv(['history', cl['A'], cl['Y'], [list(st) for st in hist['steps']], meta['weights']])
+    out = r[0]
+    resid0, rha, lhm = [[frac(x) for x in part] for part in out]
+    A, Y, W, PI, V = (np.asarray(cl[k], dtype=float) for k in ('A', 'Y', 'w', 'pi', 'V'))
+    dvec = W * (A - PI)
+    ctx.disagreements_checked += 1
+    if len(hist['psi']) != dim or hist['labels'] != cl['labels']:
+        fails.append((n, 'GEstimationSNM.history.stale-structural-model',
+                      '%s: psi_labels=%r, a fresh object gives %r' % (cfg, hist['labels'], cl['labels']), pay))
+        return
+    if not all(rel(a, b) <= 1e-9 for a, b in zip(hist['psi'], cl['psi'])):
+        fails.append((n, 'GEstimationSNM.history.psi-differs-from-fresh-object',
+                      '%s: psi=%r, a fresh object with the final specification gives %r (%d complete rows)' % (cfg, hist['psi'], cl['psi'], len(A)), pay))
+    mscale = max(float(np.max(np.abs(cl['lhm']))), float(np.sum(np.abs(dvec))))
+    rscale = max(float(np.max(np.abs(cl['rha']))), float(np.sum(np.abs(dvec * Y))))
+    ctx.disagreements_checked += 1
+    if not all(close(x, q, TOL_ARITH, scale=mscale) for x, q in zip(hist['lhm'], lhm)) or \
+            not all(close(x, q, TOL_ARITH, scale=rscale) for x, q in zip(hist['rha'], rha)):
+        fails.append((n, 'GEstimationSNM.history.stale-lhm-rha',
+                      '%s: last solve used lhm=%r rha=%r; the model on the final weights and the freshly fitted propensities gives M=%r r=%r'
+                      % (cfg, hist['lhm'], hist['rha'], [float(x) for x in lhm], [float(x) for x in rha]), pay))
+    hres = [frac(x) for x in r[4]] if len(r) > 4 else []
+    psi = np.asarray(hist['psi'])
+    scale = [float(np.sum(np.abs(dvec * V[:, j]) * (np.abs(Y) + np.abs(A * (V @ psi))))) for j in range(dim)]
+    for j, x in enumerate(hres):
+        ctx.disagreements_checked += 1
+        if abs(float(x)) > TOL_FIT * max(scale[j], 1e-12):
+            fails.append((n, 'GEstimationSNM.history.not-a-root',
+                          '%s: sum w (A - pi) V_%d H(psi) = %g at the returned psi=%r (scale %g; pi = what the final exposure model fits '
+                          'with the final weights)' % (cfg, j, float(x), hist['psi'], scale[j]), pay))
+    if not hres:
+        ctx.broken_ties.append('no Coq residual for the history case ' + cfg[:120])
 
 
 def check_one(ctx, fails, df, meta, f, mods, cl, searches, pay, r):
@@ -421,7 +577,10 @@ def replay(ctx, payload):
         f = payload['snm']
         mods = dict(SNMS)[f]
         plan = {0: [payload['search']['mode']]} if payload.get('search') else {}
-        check_cases(ctx, fails, [(df, meta, f, mods)], plan)
+        case = (df, meta, f, mods)
+        if payload.get('steps'):
+            case = case + ([tuple(st) for st in payload['steps']],)
+        check_cases(ctx, fails, [case], plan)
     else:
         cases = gen_cases(ctx)
         check_cases(ctx, fails, cases, search_plan(ctx, cases))
